@@ -3,7 +3,7 @@ import json, os
 import vlib
 
 PROPS = ["C06", "C20"]
-EVERY = {"quick": 150, "thorough": 40}
+EVERY = {"quick": 300, "thorough": 60}
 NSIM = {"quick": 15, "thorough": 300}   # each walk yields one behaviour per successor of its last state (~45)
 
 
@@ -25,7 +25,7 @@ def run(prop, tier, seed, scratch, replay=None):
     bfs = vlib.run_tlc(scratch, "Spend.tla", cfg, out_traces=traces, tag="bfs",
                        timeout=3400 if tier == "thorough" else 600)
     vlib.require_tlc_ok(bfs, "exhaustive exploration")
-    cov = vlib.op_histogram(traces, ["Receive", "Mine", "Lock", "Unlock", "Send", "SendExplicit", "DryRun", "Restart"], cfg)
+    cov = vlib.op_histogram(traces, ["Receive", "Mine", "Lock", "Unlock", "Send", "SendExplicit", "FundOwn", "DryRun", "Restart"], cfg)
     simtr = scratch.path("sim.ndjson")
     sim = vlib.run_tlc(scratch, "Spend.tla", "MC_Spend_sim.cfg", simulate=NSIM[tier], depth=29, seed=seed,
                        out_traces=simtr, tag="sim", timeout=1800)
